@@ -1,6 +1,7 @@
 package rules
 
 import (
+	"os"
 	"fmt"
 	"go/types"
 	"regexp/syntax"
@@ -338,6 +339,9 @@ func tupleAgreement(x *Ctx) {
 				t.pos[fld] = k
 			} else {
 				t.pos[fld] = -1
+				if os.Getenv("UCANLINT_DEBUG") != "" {
+					fmt.Fprintf(os.Stderr, "DEBUG C14.R3 %s.%s = %s\n", typ, fld, val)
+				}
 			}
 		}
 		// the operator at position 0 when the struct has no kind field
